@@ -642,6 +642,9 @@ func gen(r *vlib.R, n int, tier string, emit func(string)) {
 			} else if r.Chance(1, 25) {
 				extra = " lo=1"
 			}
+			if r.Chance(1, 8) {
+				extra += " ver=1" // an EDNS version the server does not speak: no cookie exchange, the token is still paid
+			}
 			emit(fmt.Sprintf("rl step proto=%s ck=%s%s", vlib.Pick(r, []string{"udp", "udp", "tcp"}), ck, extra))
 		}
 	}
@@ -715,6 +718,12 @@ func gen(r *vlib.R, n int, tier string, emit func(string)) {
 							emit(fmt.Sprintf("lad run ex=%d cut=%d fail=%s cd=%d %s nm=%s", ex, cut, fail, cd, cl, uniq(r, &k)))
 							budget--
 						}
+						// an NSEC3 proof covers the name (aggressive denial precedes failure state on the decoded
+						// ladder; a failure over an NSEC3 zone has no miss witness)
+						if r8198 == 1 && cut == 0 && ex == 0 {
+							emit(fmt.Sprintf("lad run ex=0 cut=0 fail=%s cd=%d do=%d small=0 den=1 nm=%s", fail, cd, r.Intn(2), uniq(r, &k)))
+							budget--
+						}
 						// DNSSEC-typed questions below a cut: which proof template a DO=0 client gets
 						if cut == 1 && ex == 0 && cd == 0 {
 							for _, qt := range []int{46, 47, 50, 48} {
@@ -782,6 +791,13 @@ func gen(r *vlib.R, n int, tier string, emit func(string)) {
 			// (histories below are not steered to fresh entry-limiter buckets: erl = 0 only)
 			if strings.Contains(cfgLine, "ratelimit") && erlOf(cfgLine) == 0 && r.Chance(1, 3) {
 				emit(genSeq(r, &k))
+			} else if strings.Contains(cfgLine, "rfc8198=1") && r.Chance(1, 12) {
+				// aggressive denial: a cached NSEC3 proof covers the name; with starve=1 the first
+				// resolution ran while the crypto budget was exhausted and failed (RFC 9520 state
+				// recorded over an NSEC3 zone), the budget is back for the compared serves
+				scn := vlib.Pick(r, []string{"sf", "sf", "sfe", "pos", "nx"})
+				emit(fmt.Sprintf("e2e q nsec3=1 starve=%d name=%s.%s-@.zt. qt=%d id=%d usz=1232 do=%d cd=%d ck=- proto=%s warm=%s rep=%d ord=%d", r.Intn(2), mixCase(r, scn), uniq(r, &k),
+					vlib.Pick(r, []int{1, 1, 28, 16}), r.Intn(65536), r.Intn(2), b2i(r.Chance(1, 5)), vlib.Pick(r, []string{"udp", "tcp"}), vlib.Pick(r, []string{"raw", "msg"}), 1+r.Intn(2), r.Intn(4)))
 			} else if erlOf(cfgLine) == 0 && r.Chance(1, 10) {
 				emit(genMix(r, &k))
 			} else if r.Chance(1, 4) && erlOf(cfgLine) == 0 {
